@@ -154,6 +154,7 @@ type obs struct {
 	Planned    []string `json:"planned,omitempty"`
 	Read       []string `json:"read,omitempty"`
 	Style      string   `json:"style,omitempty"`
+	Refused    string   `json:"refused,omitempty"`
 }
 
 func trimStmt(s string) string {
@@ -230,6 +231,7 @@ func main() {
 	sc.Buffer(make([]byte, 1<<20), 1<<26)
 	var (
 		nobs, ncase, skipped int
+		planRefused          int
 		evalErr              = map[string]int{}
 		byKind               = map[string]int{}
 		samples              []obs
@@ -297,7 +299,9 @@ func main() {
 						}
 						plan, err := d.plan.PlanChanges(context.Background(), "seed", changes, popts...)
 						if err != nil {
-							o.Err = "plan: " + err.Error()
+							// no plan is produced for this input (e.g. SQLite refuses a default it cannot re-quote): nothing to round-trip
+							o.Refused = "plan: " + err.Error()
+							planRefused++
 							return
 						}
 						plan.Version, plan.Name = "1", "seed"
@@ -436,7 +440,7 @@ func main() {
 	of.Close()
 	wf.Flush()
 	full.Close()
-	json.NewEncoder(os.Stdout).Encode(map[string]any{"observations": nobs, "cases": ncase, "skipped_by_hcl": skipped, "hcl_refusals": evalErr, "cases_by_kind": byKind, "samples": samples})
+	json.NewEncoder(os.Stdout).Encode(map[string]any{"observations": nobs, "cases": ncase, "skipped_by_hcl": skipped, "hcl_refusals": evalErr, "planner_refusals": planRefused, "cases_by_kind": byKind, "samples": samples})
 }
 
 func contains(xs []int, x int) bool {
